@@ -4,6 +4,7 @@ no `assert` of processModule/getProcessedModule can fail, and the final processi
 module does not depend on the schedule.  Theorems over `PdModel.Schedule`.
 -/
 import PdModel.Schedule
+import PdModel.PostProcess
 
 namespace Schedule
 
@@ -926,3 +927,228 @@ example : seesOf 0 (run exAcyclic [1, 0, 2]).log = [Event.sees 0 1 .processed, E
   decide
 
 end Schedule
+
+/-! ## `_inherits_instance_variable_kind`: the kinds computed by the post-processing pass do not depend
+on the order in which the attributes are visited -/
+namespace PostProcess
+
+/-- well-formedness of the member table and the linearisations (what pydoctor's registry and a
+consistent hierarchy give): a class has one member per name; a linearisation starts with its class,
+which does not occur again; the linearisation of every class in it is contained in it -/
+structure WF (w : World) : Prop where
+  uniq : ∀ i j, i < w.n → j < w.n → w.cls i = w.cls j → w.name i = w.name j → i = j
+  head : ∀ c, ∃ t, w.mro c = c :: t ∧ c ∉ t
+  mono : ∀ c b, b ∈ w.mro c → ∀ x, x ∈ w.mro b → x ∈ w.mro c
+
+theorem mem_inherited {w : World} (h : WF w) {i j : Nat} :
+    j ∈ inherited w i ↔ j < w.n ∧ w.cls j ∈ (w.mro (w.cls i)).tail ∧ w.name j = w.name i := by
+  unfold inherited
+  rw [List.mem_filterMap]
+  constructor
+  · rintro ⟨b, hb, hf⟩
+    have := List.find?_some hf
+    simp only [Bool.and_eq_true, beq_iff_eq] at this
+    have hm := List.mem_of_find?_eq_some hf
+    exact ⟨by simpa using hm, this.1 ▸ hb, this.2⟩
+  · rintro ⟨hj, hc, hn⟩
+    refine ⟨w.cls j, hc, ?_⟩
+    have hex : ∃ x ∈ List.range w.n, (w.cls x == w.cls j && w.name x == w.name i) = true :=
+      ⟨j, by simpa using hj, by simp [hn]⟩
+    cases hf : (List.range w.n).find? (fun x => w.cls x == w.cls j && w.name x == w.name i) with
+    | none =>
+      rw [List.find?_eq_none] at hf
+      obtain ⟨x, hx, hp⟩ := hex
+      exact absurd hp (hf x hx)
+    | some x =>
+      have hp := List.find?_some hf
+      simp only [Bool.and_eq_true, beq_iff_eq] at hp
+      have hx : x < w.n := by simpa using List.mem_of_find?_eq_some hf
+      rw [h.uniq x j hx hj hp.1 (hp.2.trans hn.symm)]
+
+/-- the invariant of the pass: a kind only ever changes from class variable to instance variable, and
+only where the specification says so -/
+def Ok (w : World) (k : Nat → Kind) : Prop :=
+  ∀ i, k i = w.orig i ∨ (w.orig i = .classVar ∧ k i = .instVar ∧ spec w i = .instVar)
+
+theorem spec_inst_of_witness {w : World} {i j : Nat} (hi : w.orig i = .classVar) (hj : j ∈ inherited w i)
+    (hk : w.orig j = .instVar) : spec w i = .instVar := by
+  unfold spec
+  have : (inherited w i).any (fun j => w.orig j == .instVar) = true := by
+    rw [List.any_eq_true]; exact ⟨j, hj, by simp [hk]⟩
+  simp [hi, this]
+
+/-- a member inherited by an inherited member is inherited -/
+theorem inherited_trans {w : World} (h : WF w) {i j l : Nat} (hin : i < w.n) (hj : j ∈ inherited w i)
+    (hl : l ∈ inherited w j) (hne : w.orig i ≠ w.orig l) : l ∈ inherited w i := by
+  rw [mem_inherited h] at hj hl ⊢
+  obtain ⟨hjn, hjc, hjname⟩ := hj
+  obtain ⟨hln, hlc, hlname⟩ := hl
+  refine ⟨hln, ?_, hlname.trans hjname⟩
+  obtain ⟨t, ht, hnt⟩ := h.head (w.cls i)
+  have hjm : w.cls j ∈ w.mro (w.cls i) := List.mem_of_mem_tail hjc
+  have hlm : w.cls l ∈ w.mro (w.cls i) := h.mono _ _ hjm _ (List.mem_of_mem_tail hlc)
+  rw [ht] at hlm ⊢
+  simp only [List.tail_cons]
+  rcases List.mem_cons.mp hlm with e | e
+  · exfalso
+    have : l = i := h.uniq l i hln hin e (hlname.trans hjname)
+    exact hne (this ▸ rfl)
+  · exact e
+
+theorem ok_step {w : World} (h : WF w) {k : Nat → Kind} (hk : Ok w k) {i : Nat} (hin : i < w.n) :
+    Ok w (step w k i) := by
+  unfold step
+  split
+  · rename_i hc
+    obtain ⟨hci, hany⟩ := hc
+    intro x
+    by_cases hx : x = i
+    · subst hx
+      simp only [if_true]
+      have hoi : w.orig x = .classVar := by
+        rcases hk x with e | ⟨_, e, _⟩
+        · rw [← e]; exact hci
+        · rw [hci] at e; cases e
+      refine .inr ⟨hoi, by simp, ?_⟩
+      rw [List.any_eq_true] at hany
+      obtain ⟨j, hj, hkj⟩ := hany
+      have hkj' : k j = .instVar := by simpa using hkj
+      rcases hk j with e | ⟨hoj, _, hsj⟩
+      · exact spec_inst_of_witness hoi hj (e ▸ hkj')
+      · -- j was converted: it has a witness of its own, which x inherits too
+        unfold spec at hsj
+        split at hsj
+        · rename_i hcj
+          have hanyj := hcj.2
+          rw [List.any_eq_true] at hanyj
+          obtain ⟨l, hl, hol⟩ := hanyj
+          have hol' : w.orig l = .instVar := by simpa using hol
+          exact spec_inst_of_witness hoi (inherited_trans h hin hj hl (by rw [hoi, hol']; decide)) hol'
+        · rw [hoj] at hsj; cases hsj
+    · simp only [hx, if_false]; exact hk x
+  · exact hk
+
+theorem ok_pass {w : World} (h : WF w) : ∀ (order : List Nat) (k : Nat → Kind), Ok w k →
+    (∀ i ∈ order, i < w.n) → Ok w (order.foldl (step w) k)
+  | [], k, hk, _ => hk
+  | i :: rest, k, hk, hlt =>
+    ok_pass h rest _ (ok_step h hk (hlt i List.mem_cons_self)) (fun j hj => hlt j (List.mem_cons_of_mem _ hj))
+
+/-- an instance variable stays one; a step only touches the member it is applied to -/
+theorem step_inst {w : World} {k : Nat → Kind} {i x : Nat} (hx : k x = .instVar) : step w k i x = .instVar := by
+  unfold step; split
+  · by_cases e : x = i <;> simp [e, hx]
+  · exact hx
+
+theorem pass_inst {w : World} : ∀ (order : List Nat) (k : Nat → Kind) (x : Nat), k x = .instVar →
+    order.foldl (step w) k x = .instVar
+  | [], _, _, hx => hx
+  | _ :: rest, _, x, hx => pass_inst rest _ x (step_inst hx)
+
+/-- once member `i` has been visited, it carries the kind the specification gives it, whatever is
+visited afterwards -/
+theorem pass_complete {w : World} (h : WF w) : ∀ (order : List Nat) (k : Nat → Kind), Ok w k →
+    (∀ i ∈ order, i < w.n) → ∀ i ∈ order, spec w i = .instVar → order.foldl (step w) k i = .instVar
+  | [], _, _, _, _, hi, _ => by cases hi
+  | a :: rest, k, hk, hlt, i, hi, hs => by
+    simp only [List.foldl_cons]
+    have hlt' : ∀ j ∈ rest, j < w.n := fun j hj => hlt j (List.mem_cons_of_mem _ hj)
+    have hok' := ok_step h hk (hlt a List.mem_cons_self)
+    by_cases hia : i = a
+    · subst hia
+      -- the step at i converts it (or it is an instance variable already)
+      have : step w k i i = .instVar := by
+        unfold spec at hs
+        split at hs
+        · rename_i hc
+          obtain ⟨hoi, hany⟩ := hc
+          rw [List.any_eq_true] at hany
+          obtain ⟨j, hj, hoj⟩ := hany
+          have hoj' : w.orig j = .instVar := by simpa using hoj
+          have hkj : k j = .instVar := by
+            rcases hk j with e | ⟨e, _, _⟩
+            · rw [e]; exact hoj'
+            · rw [hoj'] at e; cases e
+          rcases hk i with e | ⟨_, e, _⟩
+          · unfold step
+            have hany' : (inherited w i).any (fun j => k j == .instVar) = true := by
+              rw [List.any_eq_true]; exact ⟨j, hj, by simp [hkj]⟩
+            simp [e, hoi, hany']
+          · exact step_inst e
+        · rcases hk i with e | ⟨_, e, _⟩
+          · exact step_inst (e.trans hs)
+          · exact step_inst e
+      exact pass_inst rest _ i this
+    · rcases List.mem_cons.mp hi with e | e
+      · exact absurd e hia
+      · exact pass_complete h rest _ hok' hlt' i e hs
+
+/-- **kind_pass_spec** (C06, C02): whatever the order in which the attributes are visited — as long as
+every one of them is — the pass leaves member `i` with the kind the specification names: an instance
+variable iff it was one, or was a class variable with an instance variable of its name up the
+linearisation of its class. -/
+theorem kind_pass_spec (w : World) (h : WF w) (order : List Nat) (hlt : ∀ i ∈ order, i < w.n)
+    (i : Nat) (hi : i ∈ order) : kindPass w order i = spec w i := by
+  unfold kindPass
+  have hok : Ok w w.orig := fun _ => .inl rfl
+  by_cases hs : spec w i = .instVar
+  · rw [hs]; exact pass_complete h order _ hok hlt i hi hs
+  · rcases ok_pass h order _ hok hlt i with e | ⟨_, _, e⟩
+    · rw [e]
+      unfold spec at hs ⊢
+      split
+      · rename_i hc; simp [hc] at hs
+      · rfl
+    · exact absurd e hs
+
+/-- **kind_pass_order_independent** (C06): two visiting orders of the same attributes give the same kinds -/
+theorem kind_pass_order_independent (w : World) (h : WF w) (o1 o2 : List Nat)
+    (h1 : ∀ i ∈ o1, i < w.n) (h2 : ∀ i ∈ o2, i < w.n) (i : Nat) (hi1 : i ∈ o1) (hi2 : i ∈ o2) :
+    kindPass w o1 i = kindPass w o2 i := by
+  rw [kind_pass_spec w h o1 h1 i hi1, kind_pass_spec w h o2 h2 i hi2]
+
+/-- a three-class chain top ← mid ← bot with the attribute an instance variable at the top and a class
+variable in both subclasses -/
+def exW : World where
+  n := 3
+  cls := fun i => i
+  name := fun _ => 0
+  mro := fun c => if c = 1 then [1, 0] else if c = 2 then [2, 1, 0] else [c]
+  orig := fun i => if i = 0 then .instVar else .classVar
+
+theorem exW_wf : WF exW := by
+  refine ⟨?_, ?_, ?_⟩
+  · intro i j _ _ hc _; exact hc
+  · intro c
+    by_cases h1 : c = 1
+    · subst h1; exact ⟨[0], by simp [exW], by simp⟩
+    · by_cases h2 : c = 2
+      · subst h2; exact ⟨[1, 0], by simp [exW], by simp⟩
+      · exact ⟨[], by simp [exW, h1, h2], by simp⟩
+  · intro c b hb x hx
+    by_cases h1 : c = 1
+    · subst h1
+      simp [exW] at hb
+      rcases hb with rfl | rfl
+      · exact hx
+      · simp [exW] at hx; subst hx; simp [exW]
+    · by_cases h2 : c = 2
+      · subst h2
+        simp [exW] at hb
+        rcases hb with rfl | rfl | rfl
+        · exact hx
+        · simp [exW] at hx; rcases hx with rfl | rfl <;> simp [exW]
+        · simp [exW] at hx; subst hx; simp [exW]
+      · simp [exW, h1, h2] at hb; subst hb; exact hx
+
+/-- non-vacuity: bottom first or middle first, both end as instance variables -/
+example : kindPass exW [2, 1, 0] 2 = .instVar ∧ kindPass exW [1, 2, 0] 2 = .instVar ∧ kindPass exW [2, 1, 0] 1 = .instVar := by
+  refine ⟨?_, ?_, ?_⟩ <;> (rw [kind_pass_spec exW exW_wf _ (by decide) _ (by decide)]; decide)
+
+/-- the early-stop variant (a seeded change) IS order dependent on the same chain: visiting the bottom
+attribute before the middle one leaves it a class variable -/
+theorem early_stop_order_dependent :
+    [2, 1, 0].foldl (stepEarlyStop exW) exW.orig 2 = .classVar ∧
+    [1, 2, 0].foldl (stepEarlyStop exW) exW.orig 2 = .instVar := by decide
+
+end PostProcess
